@@ -652,6 +652,14 @@ handle_new_connection(struct qb_ipcs_service *s,
 	const char suffix[] = "/qb";
 	int desc_len;
 
+	/*
+	 * The size comes from the peer.  Nothing works with buffers that do
+	 * not even hold a message header (the socket transport peeks one
+	 * into receive_buf): use the same lower bound as our own client.
+	 */
+	max_buffer_size = QB_MAX(max_buffer_size,
+				 sizeof(struct qb_ipc_connection_response));
+
 	c = qb_ipcs_connection_alloc(s);
 	if (c == NULL) {
 		qb_ipcc_us_sock_close(sock);
